@@ -65,6 +65,12 @@ def check_pair(a, b, kind, le, Ls):
     for x, y in ((ea, lb), (la, eb), (la, lb)):
         if L0.is_equivalent(x, y) != eq or L0.is_equivalent(y, x) != eq or L0.contains(x, y) != co:
             return 'answer depends on how the symbols are represented (plain symbol / wrapped user object)', eq, co
+    # and over mixtures: plain symbols, wrapped user objects, instances of a user's subclass of LicenseSymbol, with other aliases
+    for seed_a, seed_b in ((1, 2), (3, 1)):
+        ma, mb = build_expr(a, like=seed_a), build_expr(b, like=seed_b)
+        for x, y in ((ma, eb), (ea, mb), (ma, mb)):
+            if L0.is_equivalent(x, y) != eq or L0.is_equivalent(y, x) != eq or L0.contains(x, y) != co:
+                return 'answer depends on how the symbols are represented (mixtures of plain symbols, user subclasses, wrapped objects)', eq, co
     if co:
         sb = enc_expr(eb.simplify())
         if not set(algebra.atoms_of(sb)) <= atoms_dec(a):
